@@ -1083,6 +1083,9 @@ def readspec(platein, mjd=None, fiber=None, **kwargs):
     if 'align' in kwargs:
         loglam0 = allcoeff0[0] + allcoeff1[1]*np.arange(npixmax, dtype='d')
         spplate_data['loglam'] = np.resize(loglam0, (nfibers, npixmax))
+    else:
+        spplate_data['loglam'] = (allcoeff0[:, np.newaxis] +
+                                  allcoeff1[:, np.newaxis]*np.arange(npixmax, dtype='d'))
     return spplate_data
 
 
